@@ -175,44 +175,46 @@ template<typename T> struct VoFamily: Family {
 };
 
 // ------------------------------------------------------------------ var_opt union (serialisable operator state)
-struct VouSk: Sk {
-  typedef int64_t T; typedef sim::talloc<T> A;
+template<typename T> struct VouSkT: Sk {
+  typedef sim::talloc<T> A;
   typedef ds::var_opt_union<T, A> S;
   typedef ds::var_opt_sketch<T, A> K;
-  typedef ds::serde<int64_t> SD;
+  typedef typename Item<T>::serde SD;
   uint32_t k; std::unique_ptr<S> s;
-  VouSk(S&& s_, uint32_t k_): k(k_), s(new S(std::move(s_))) {}
-  const char* fam() const override { return "varopt_union"; }
-  Sk* clone() const override { return new VouSk(S(*s), k); }
-  Sk* move_out() override { return new VouSk(S(std::move(*s)), k); }
+  VouSkT(S&& s_, uint32_t k_): k(k_), s(new S(std::move(s_))) {}
+  const char* fam() const override { static std::string n = std::is_same<T, int64_t>::value ? std::string("varopt_union") : std::string("varopt_union<") + NameOf<T>::s() + ">"; return n.c_str(); }
+  Sk* clone() const override { return new VouSkT(S(*s), k); }
+  Sk* move_out() override { return new VouSkT(S(std::move(*s)), k); }
 #ifdef DSIM_BASELINE   // the pinned baseline's var_opt_union copy assignment does not compile (repaired in /repo)
-  void copy_assign(const Sk& o) override { s.reset(new S(*static_cast<const VouSk&>(o).s)); k = static_cast<const VouSk&>(o).k; }
+  void copy_assign(const Sk& o) override { s.reset(new S(*static_cast<const VouSkT&>(o).s)); k = static_cast<const VouSkT&>(o).k; }
 #else
-  void copy_assign(const Sk& o) override { *s = *static_cast<const VouSk&>(o).s; k = static_cast<const VouSk&>(o).k; }
+  void copy_assign(const Sk& o) override { *s = *static_cast<const VouSkT&>(o).s; k = static_cast<const VouSkT&>(o).k; }
 #endif
-  void move_assign(Sk& o) override { *s = std::move(*static_cast<VouSk&>(o).s); k = static_cast<VouSk&>(o).k; }
+  void move_assign(Sk& o) override { *s = std::move(*static_cast<VouSkT&>(o).s); k = static_cast<VouSkT&>(o).k; }
   void feed(i64 start, i64 count, i64 pattern) override {
-    K sk(std::max<uint32_t>(1, static_cast<uint32_t>(k / (1 + (static_cast<u64>(start) % 3)))), ds::resize_factor::X2, A(ARENA));
-    for (i64 j = 0; j < count; j++) { i64 v = feed_value(start, j, count, pattern); sk.update(v, feed_weight(v, pattern)); }
+    K sk(std::max<uint32_t>(1, static_cast<uint32_t>(k / (1 + (static_cast<u64>(start) % (std::is_same<T, int64_t>::value ? 3 : 8))))), ds::resize_factor::X2, A(ARENA));
+    for (i64 j = 0; j < count; j++) { i64 v = feed_value(start, j, count, pattern); sk.update(Item<T>::make(v), feed_weight(v, pattern)); }
     if (start & 1) s->update(std::move(sk)); else s->update(sk);
   }
-  void merge(const Sk& o) override { K r = static_cast<const VouSk&>(o).s->get_result(); s->update(r); }
-  void merge_move(Sk& o) override { K r = static_cast<VouSk&>(o).s->get_result(); s->update(std::move(r)); }
+  void merge(const Sk& o) override { K r = static_cast<const VouSkT&>(o).s->get_result(); s->update(r); }
+  void merge_move(Sk& o) override { K r = static_cast<VouSkT&>(o).s->get_result(); s->update(std::move(r)); }
   void reset() override { s->reset(); }
   std::string obs(bool det_only) const override { ObsRandom guard; K r = s->get_result(); return obs_varopt<T>(r, det_only); }   // get_result() draws
   bool deterministic() const override { return false; }
   Bytes ser(int, unsigned h) const override { return to_bytes(s->serialize(h, SD())); }
   void ser_os(int, std::ostream& os) const override { s->serialize(os, SD()); }
-  Sk* de(int, const uint8_t* p, size_t n) const override { return new VouSk(S::deserialize(p, n, SD(), A(ARENA)), k); }
-  Sk* de_is(int, std::istream& is) const override { return new VouSk(S::deserialize(is, SD(), A(ARENA)), k); }
+  Sk* de(int, const uint8_t* p, size_t n) const override { return new VouSkT(S::deserialize(p, n, SD(), A(ARENA)), k); }
+  Sk* de_is(int, std::istream& is) const override { return new VouSkT(S::deserialize(is, SD(), A(ARENA)), k); }
   size_t advertised_size(int) const override { return s->get_serialized_size_bytes(SD()); }
 };
-struct VouFamily: Family {
-  const char* name() const override { return "varopt_union"; }
+typedef VouSkT<int64_t> VouSk;
+template<typename T> struct VouFamilyT: Family {
+  const char* name() const override { static std::string n = std::is_same<T, int64_t>::value ? std::string("varopt_union") : std::string("varopt_union<") + NameOf<T>::s() + ">"; return n.c_str(); }
   int cfg_len() const override { return 1; }
   void gen_cfg(sim::Rng& r, std::vector<i64>& cfg, int) const override { static const int ks[] = { 2, 5, 8, 16, 32 }; cfg.push_back(r.pick(ks)); }
-  Sk* make(const i64* cfg) const override { return new VouSk(VouSk::S(static_cast<uint32_t>(cfg[0]), VouSk::A(ARENA)), static_cast<uint32_t>(cfg[0])); }
+  Sk* make(const i64* cfg) const override { return new VouSkT<T>(typename VouSkT<T>::S(static_cast<uint32_t>(cfg[0]), typename VouSkT<T>::A(ARENA)), static_cast<uint32_t>(cfg[0])); }
 };
+typedef VouFamilyT<int64_t> VouFamily;
 
 // ------------------------------------------------------------------ ebpps
 template<typename T> struct EbSk: Sk {
@@ -365,6 +367,8 @@ template<typename T> struct DnFamily: Family {
   Sk* make(const i64* cfg) const override { return new DnSk<T>(typename DnSk<T>::S(static_cast<uint16_t>(cfg[0]), static_cast<uint32_t>(cfg[1]), sim_gaussian_kernel<T>(), typename DnSk<T>::A(ARENA))); }
 };
 
+// families that only world `heap` (C19) drives: not part of the serialisation worlds (the baseline release does not compile them with a user allocator)
+inline void register_misc_heap_extra() { static VouFamilyT<std::string> vus; static VouFamilyT<sim::titem> vut; static VoFamily<sim::titem> vt; families().push_back(&vus); families().push_back(&vut); families().push_back(&vt); }
 inline void register_misc() {
   static FiFamily<int64_t> fi; static FiFamily<std::string> fs; static CmFamily cm;
   static VoFamily<int64_t> vi; static VoFamily<std::string> vs; static VouFamily vu;
